@@ -49,6 +49,47 @@ func runC11(p *load.Program, r *core.Report) {
 	c11Discriminators(p, r)
 	c11CacheDirection(p, r)
 	c11Composite(p, r)
+	byteOrderRule(p, r, "C11.E8 byte-order", "C11.E8", []string{"net/edf"}, 60)
+}
+
+// byteOrderRule: every fixed-width integer that crosses the wire is written and read big-endian —
+// in the given packages no function uses encoding/binary's little-endian (or native-endian) order;
+// the number of big-endian accesses seen is reported and must not fall below the reference count
+// (a positive witness that the rule still looks at the code).
+func byteOrderRule(p *load.Program, r *core.Report, rule, rid string, pkgs []string, floorBig int) {
+	r.Floor(rule, 1)
+	big := 0
+	var bad []string
+	var badPos string
+	for _, f := range funcsOfPkgs(p, pkgs...) {
+		eachInstr(f, func(in ssa.Instruction) {
+			cc := callCommon(in)
+			if cc == nil {
+				return
+			}
+			sf := staticCallee(cc)
+			if sf == nil || sf.Pkg == nil || sf.Pkg.Pkg.Path() != "encoding/binary" || sf.Signature.Recv() == nil {
+				return
+			}
+			switch namedOf(sf.Signature.Recv().Type()) {
+			case "encoding/binary.bigEndian":
+				big++
+			default:
+				bad = append(bad, fmt.Sprintf("%s uses %s.%s at %s", fname(f), namedOf(sf.Signature.Recv().Type()), sf.Name(), p.Pos(in.Pos())))
+				badPos = p.Pos(in.Pos())
+			}
+		})
+	}
+	key := rid + "|" + strings.Join(pkgs, "+")
+	inst := "all fixed-width integers on the wire are big-endian on the writing and on the reading side"
+	switch {
+	case len(bad) > 0:
+		r.Bad(rule, key, "", badPos, inst, strings.Join(bad, "; ")+": the peer reads the bytes in the other order")
+	case big < floorBig:
+		r.Unk(rule, key, "", "", inst, fmt.Sprintf("only %d big-endian accesses found (reference: at least %d): the rule no longer sees the codec", big, floorBig))
+	default:
+		r.OK(rule, key, strings.Join(pkgs, ","), "", inst, fmt.Sprintf("%d big-endian accesses, no other byte order", big))
+	}
 }
 
 // c11Composite: E7 — folded type descriptors of unnamed composites: every composite tag the
